@@ -148,7 +148,7 @@ func GenPlan(t *rapid.T, profile string, k Knobs) *Plan {
 		if k.Promote {
 			in.Promote = rapid.SampledFrom([]int{0, 1, 1, 2}).Draw(t, "promote")
 			if in.Promote != 0 {
-				in.PromoteLinger = rapid.SampledFrom([]time.Duration{0, 0, 0, time.Millisecond, h / 2, 2 * time.Second}).Draw(t, "promote_linger")
+				in.PromoteLinger = rapid.SampledFrom([]time.Duration{0, 0, 0, time.Millisecond, h / 2, 2 * time.Second, 6 * time.Second}).Draw(t, "promote_linger")
 			}
 		}
 		if k.DemoteDur && !in.Monitored && rapid.IntRange(0, 3).Draw(t, "dd_on") == 0 {
